@@ -545,6 +545,8 @@ structure Hs where
   ngpu : Nat
   acc : Nat
   pages : Nat
+  /-- requests waiting in the MMU port's incoming buffer (capacity 1) -/
+  mmuIn : Nat := 0
   handling : Bool := false
   drain : Nat := 0
   shoot : Nat := 0
@@ -561,45 +563,55 @@ structure Hs where
   sentRestart : Nat := 0
   sentRdma : Nat := 0
   rspMMU : Nat := 0
+  /-- ghost: some counter was decremented at 0 -/
   under : Bool := false
 deriving Repr, Inhabited, DecidableEq
 
+/-- a message delivered to the driver -/
 inductive HsOp
   | fromMMU
   | drainRsp
   | shootRsp
-  | sendMig
   | migRsp
   | restartRsp
   | rdmaRsp
 deriving Repr, Inhabited, DecidableEq
 
-def dec (n : Nat) (h : Hs) : Nat × Hs := if n = 0 then (2 ^ 64 - 1, { h with under := true }) else (n - 1, h)
+def w64 : Nat := 2 ^ 64
 
-def hsStep (h : Hs) : HsOp → Hs
-  | .fromMMU =>
-    if h.handling then h
-    else { h with handling := true, drain := h.drain + h.ngpu, sentDrain := h.sentDrain + h.ngpu }
+def dec (n : Nat) (h : Hs) : Nat × Hs := if n = 0 then (w64 - 1, { h with under := true }) else (n - 1, h)
+
+/-- what the following ticks do until nothing moves: `parseFromMMU` (+`initiateRDMADrain`) and
+    `sendMigrationReqToCP` -/
+def hsSettle (h : Hs) : Hs :=
+  let h := if !h.handling && h.mmuIn = 1 then
+      { h with mmuIn := 0, handling := true, drain := (h.drain + h.ngpu) % w64, sentDrain := h.sentDrain + h.ngpu }
+    else h
+  if h.toCP = 0 ∨ h.one then h else { h with toCP := h.toCP - 1, one := true, sentMig := h.sentMig + 1 }
+
+def hsDeliver (h : Hs) : HsOp → Hs
+  | .fromMMU => if h.mmuIn < 1 then { h with mmuIn := 1 } else h
   | .drainRsp =>
     let (d, h) := dec h.drain h
     if d = 0 then { h with drain := d, shoot := h.acc, sentShoot := h.sentShoot + h.acc } else { h with drain := d }
   | .shootRsp =>
     let (d, h) := dec h.shoot h
-    if d = 0 then { h with shoot := d, toCP := h.toCP + h.pages, mig := h.mig + h.pages } else { h with shoot := d }
-  | .sendMig =>
-    if h.toCP = 0 ∨ h.one then h else { h with toCP := h.toCP - 1, one := true, sentMig := h.sentMig + 1 }
+    if d = 0 then { h with shoot := d, toCP := h.toCP + h.pages, mig := (h.mig + h.pages) % w64 } else { h with shoot := d }
   | .migRsp =>
     let (d, h) := dec h.mig h
-    if d = 0 then { h with mig := d, one := false, restart := h.restart + h.acc,
+    if d = 0 then { h with mig := d, one := false, restart := (h.restart + h.acc) % w64,
                            sentRestart := h.sentRestart + h.acc, rspMMU := h.rspMMU + 1 }
     else { h with mig := d, one := false }
   | .restartRsp =>
     let (d, h) := dec h.restart h
-    if d = 0 then { h with restart := d, rdma := h.rdma + h.ngpu, sentRdma := h.sentRdma + h.ngpu }
+    if d = 0 then { h with restart := d, rdma := (h.rdma + h.ngpu) % w64, sentRdma := h.sentRdma + h.ngpu }
     else { h with restart := d }
   | .rdmaRsp =>
     let (d, h) := dec h.rdma h
     if d = 0 then { h with rdma := d, handling := false } else { h with rdma := d }
+
+/-- one delivered message followed by ticks until quiescence -/
+def hsStep (h : Hs) (o : HsOp) : Hs := hsSettle (hsDeliver h o)
 
 /-! ## line protocol -/
 
@@ -721,7 +733,6 @@ def parseHs : String → Option HsOp
   | "M" => some .fromMMU
   | "D" => some .drainRsp
   | "S" => some .shootRsp
-  | "G" => some .sendMig
   | "P" => some .migRsp
   | "R" => some .restartRsp
   | "A" => some .rdmaRsp
